@@ -447,7 +447,7 @@ fn parts(ctx: &Ctx) -> Vec<PartSpec> {
     let mut v = Vec::new();
     let n = alphabet().len();
     if ctx.quick() {
-        v.push(PartSpec::new("e3-d4-1shard", json!({"depth": 4})).cpus("0").budget(45.0));
+        v.push(PartSpec::new("e3-d4-1shard", json!({"depth": 4})).cpus("0").budget(150.0));
         v.push(PartSpec::new("e3-d3-2shards", json!({"depth": 3})).cpus("0,1"));
         v.push(PartSpec::new("e3-d3-16shards", json!({"depth": 3})));
         for s in ["create-create-delete", "create-retain-clear", "two-kinds-two-keys", "shared-static-key", "histogram-gauge-race", "two-removers", "remover-vs-sweeps"] {
